@@ -17,6 +17,8 @@ import graphgen as gg
 
 RULE_TOPO = ("random multigraphs 0-12 nodes from 5 DAG families x {acyclic, self loop, 2-cycle, long cycle}, parallel edges with "
              "different key kinds, shuffled node/edge insertion orders; distinct by (node order, edge list); non-trivial = has an edge")
+TRUSTED_BASE_TOPO = ["networkx.MultiDiGraph adjacency dicts iterate in first-insertion order (tested: exec_adj comparison)",
+                     "harness/graphgen.py generators and the int encoding of nodes/edge keys"]
 HEADER = ("From Coq Require Import List Arith Bool.\nImport ListNotations.\n"
           "From UJ Require Import Run.Exec_Topo.\n")
 
@@ -125,6 +127,15 @@ def run_topo(ctx, n_cases=None):
             ss, ps = list(g.successors(v)), list(g.predecessors(v))
             adj += [len(ss)] + ss + [len(ps)] + ps
         add("exec_adj %s %s" % (cns, ces), "adjacency order (succs_first/preds_first)", "adj", adj, replay)
+        # the same from an edge list RECONSTRUCTED from the real object (graphgen.edges_in_adjacency_order): this is how
+        # other harnesses feed real graphs (physical plans) to the models
+        res = [(u, v) for u, v, _ in gg.edges_in_adjacency_order(g)]
+        if sorted(res) != sorted(es):
+            ctx.broke("graphgen.edges_in_adjacency_order loses edges", dict(replay, reconstructed=res))
+        add("exec_adj %s %s" % (cns, gg.coq_pairs(res)), "adjacency order from reconstructed edge list", "adj2", adj, replay)
+        if order is not None or impl == [1]:
+            add("exec_kahn %s %s" % (cns, gg.coq_pairs(res)), "topological_sort from reconstructed edge list", "kahn2",
+                ([0] + order) if order is not None else [1], replay)
 
     outs = core.coq_eval(HEADER, terms, ty="list nat", tag="topo")
     for (what, tag, impl, replay), o in zip(expect, outs):
